@@ -16,14 +16,15 @@ LEVEL = "exploration"
 RULE = ("every typed request class that has an answer class (25 pairs) x Result-Code alphabet (boundary set: "
         "all library constants + x000/x001/x999 of every family + 32-bit boundaries; on two pairs every code "
         "0..6999 quick / 0..65535 thorough; thorough also every code 0..6999 on all pairs) x {RC only, ER only, "
-        "RC+ER} x request Session-Id length residues 0..3 x identifier alphabet; two paths (decorate_answer, "
+        "RC+ER, RC with E preset by the handler, RC+ER with E preset} x request Session-Id length residues 0..3 x identifier alphabet; two paths (decorate_answer, "
         "callback_route). A case is one (pair, code, mode, session-id, identifiers, path); distinct by "
         "construction; non-trivial = codes that are not multiples of 1000 or cases with an Experimental-Result")
 ASSUMPTIONS = [
     "E flag oracle: for a sent answer whose Result-Code n has n % 1000 != 0, E set iff n // 1000 in {3,4,5}; "
     "multiples of 1000 and answers whose Result-Code was dropped in favour of an Experimental-Result are "
     "unconstrained; an answer with neither must have E clear",
-    "the handler returns a fresh answer of the request's answer class with E clear (typed-class domain)",
+    "the handler returns a fresh answer of the request's answer class, with the E flag clear or already set by "
+    "the handler (modes '+e')",
     "in-process Worker with a stand-in manager (vk/inproc.py); thresholds' timeouts set to 0",
 ]
 
@@ -69,8 +70,14 @@ def answer_params(akey):
 
 
 def make_answer(akey, code, mode):
-    """mode: 'rc' | 'er' | 'both'. Returns None when the class cannot express the mode."""
+    """mode: 'rc' | 'er' | 'both', optionally suffixed '+e' (the handler has already set the E flag itself, as
+    RFC 6733 asks of whoever builds an error answer). Returns None when the class cannot express the mode."""
     import bromelia.avps as A
+    if mode.endswith("+e"):
+        ans = make_answer(akey, code, mode[:-2])
+        if ans is not None:
+            ans.header.set_error_bit(True)
+        return ans
     classes = c09.discover()
     cls = classes[akey]
     params = answer_params(akey)
@@ -223,6 +230,7 @@ def run(report, tier, seed):
     # (a) all pairs x boundary codes x all modes x all sids x one identifier pair, both paths
     for p in ps:
         shards.append(([p], bcodes, ("rc", "er", "both"), SIDS, [(0x11223344, 0x55667788)], both))
+        shards.append(([p], bcodes, ("rc+e", "both+e"), SIDS[:2], [(0x11223344, 0x55667788)], both))
     # (b) all pairs x identifier alphabet (complete product) x one failing code
     shards.append((ps, [5012], ("rc",), SIDS[:1], idpairs, both))
     # (c) every code in a range on two pairs (thorough: all pairs 0..6999, two pairs 0..65535)
